@@ -258,6 +258,22 @@ example : (let i : Inc := { id := some 1, tag := some [1], fmt := some 0, settle
     (stepR (some i) f true).2 = .delivery 1 [1] (some 0) false [7, 9] ∧
     deliver f.id f.tag f.fmt f.settled f.payload = .missingIdOrTag) := by decide
 
+/-! ### a delivery posted under a transaction -/
+
+/-- **committed_post_is_the_post_as_written (C10, C18).** `key` gives back the transfer a routed frame stands
+    for. What the commit replays to link `h` out of transaction `id` (its work, in order) goes through the
+    link's reassembly exactly as the frames of the post would have, had the peer written them to the link
+    directly — so `reasm_once`, `abort_clean` and `refused_frame_leaves_nothing` hold for posted deliveries as
+    they do for plain ones. -/
+theorem committed_post_is_the_post_as_written (h id tg : Nat) (key : Nat → Frame)
+    (fs : List Amqp.TxnRoute.TFrame) (s : Amqp.TxnRoute.St)
+    (ht : s.table h = some (id, some tg))
+    (hall : ∀ f ∈ fs, f.handle = h → Amqp.TxnRoute.Continues h id tg f ∧ f.more = true ∧ f.aborted = false)
+    (st : Option Inc) :
+    run st ((((Amqp.TxnRoute.run s fs).1.work id).filter (·.handle == h)).map (fun g => key g.key)) =
+    run st ((((s.work id).filter (·.handle == h)) ++ fs.filter (·.handle == h)).map (fun g => key g.key)) := by
+  rw [Amqp.TxnRoute.post_work_in_order h id tg fs s ht hall]
+
 /-! ### non-vacuity -/
 example : (run none [⟨some 7, some [1], some 0, none, true, false, [1, 2]⟩, ⟨some 8, none, none, none, true, false, [66]⟩,
     ⟨some 7, none, none, none, false, false, [3]⟩]).2 =
